@@ -9,7 +9,7 @@
 (*     of every call.                                                        *)
 EXTENDS MCFlat, Json
 
-RtDone == mode = "dec" /\ Follow /\ Len(outs) = Len(ops)
+RtDone == mode # "enc" /\ Follow /\ Len(outs) = Len(ops)
 EmitRt ==
     RtDone => PrintT(<<"VEC", ToJson(
         [ ops   |-> ops,
@@ -18,7 +18,7 @@ EmitRt ==
           offs  |-> [i \in 1..Len(outs) |-> IF i = 1 THEN 0 ELSE outs[i - 1].p % 8],
           rt    |-> (\A i \in 1..Len(outs) : outs[i].out = "ok" /\ outs[i].val = ops[i].v) /\ pos = Len(bits) ])>>)
 
-TotalDone == mode = "dec" /\ ~Follow /\ outs # <<>> /\ ~MCMoreCalls(outs)
+TotalDone == mode # "enc" /\ ~Follow /\ outs # <<>> /\ ~MCMoreCalls(outs)
 EmitTotal ==
     TotalDone => PrintT(<<"VEC", ToJson(
         [ buf   |-> PackBytes(bits),
